@@ -11,6 +11,7 @@ import (
 var impls = map[string]func(string) string{
 	"asm.run":        implAsmReplay,
 	"asm.clone":      implAsmClone,
+	"asmconc.accept": implAsmConcAccept,
 	"idx.decode":     implIdxDecode,
 	"idx.encode":     implIdxEncode,
 	"chunk.all":      implChunkAll,
